@@ -98,11 +98,11 @@ def _child(fn):
 
 
 def _map_child(case, storage, mode, root, log, cleanup, out, crash_at=None, tear=None, trace=None, fault=None,
-               inputs=None):
+               inputs=None, crash_children=False):
     def fn():
         from pipefunc.map import load_outputs
 
-        fsmon.FsMon(root, crash_at, tear, trace).install()
+        fsmon.FsMon(root, crash_at, tear, trace, crash_children=crash_children).install()
         res = {}
         try:
             pipeline = mapgen.build_pipeline(case, log=log, fault=fault)
@@ -112,6 +112,12 @@ def _map_child(case, storage, mode, root, log, cleanup, out, crash_at=None, tear
                 from concurrent.futures import ThreadPoolExecutor
 
                 ex = ThreadPoolExecutor(2)
+                kw = {"executor": ex}
+            elif mode == "process":
+                import multiprocessing
+                from concurrent.futures import ProcessPoolExecutor
+
+                ex = ProcessPoolExecutor(2, mp_context=multiprocessing.get_context("fork"))
                 kw = {"executor": ex}
             try:
                 r = pipeline.map(inputs if inputs is not None else mapgen.make_inputs(case), run_folder=root,
@@ -212,6 +218,9 @@ def plan(tier, seed):
                     for k, tear in rng.sample(pts, min(len(pts), 25)):
                         descs.append({"w": w, "st": st, "mode": mode, "kind": "double", "k": k, "tear": tear,
                                       "k2": rng.randint(1, max(2, len(ev))), "evkind": ev[k - 1][1], "evpath": ev[k - 1][2]})
+                    if st in ("file_array", "shared_memory_dict"):  # storages whose elements are written by the worker
+                        for k in range(1, len(ev) + 1, 2):
+                            descs.append({"w": w, "st": st, "mode": "seq", "kind": "worker", "k": k})
                     comparable = all(r["kind"] != "ndarray" for r in WORKLOADS[w]["roots"].values())
                     if comparable:  # pipefunc cannot compare object-dtype ndarray inputs of two runs ("hoping for the best")
                         for k in range(1, 2 * len(ev) + 8):
@@ -363,6 +372,26 @@ def run_case(desc):
                     v.bad(f"resume-raises:second-run-exit{rc2}/{sigctx}", "second (to be crashed) run failed by itself", desc=desc)
                     return v.result(key=json.dumps(desc, sort_keys=True))
             check_resume(v, desc, case, env, exp_calls, root, scratch, done, "resume", sigctx)
+        elif desc["kind"] == "worker":
+            # a WORKER process of a process pool dies at its k-th fs event; the coordinating process sees a broken pool
+            out1 = os.path.join(scratch, "crash.out")
+            rc = _map_child(case, desc["st"], "process", root, log1, True, out1, crash_at=desc["k"], trace=trace, crash_children=True)
+            ev = fsmon.read_trace(trace)
+            if not any(len(e) > 5 for e in ev):
+                v.count("crash_point_not_reached")
+                return v.result()
+            v.count("crashes")
+            v.count("worker_deaths")
+            try:
+                r1 = json.load(open(out1))
+            except Exception:  # noqa: BLE001
+                r1 = {}
+            if rc == 0 and "exc" not in r1:
+                v.bad("worker-death:map-returned-normally", "a pool worker died but map returned normally", desc=desc)
+            last = next(e for e in ev if len(e) > 5)
+            v.count(f"crash_at_{last[1]}_in_worker")
+            done = fsmon.complete_files(ev)
+            check_resume(v, desc, case, env, exp_calls, root, scratch, done, "resume", f"worker-death:{last[1]}:{_bucket(last[2])}")
         elif desc["kind"] == "raise":
             fname = None
             # the c-th probe call overall raises: translate to (function, term) using the recorded order = oracle order
